@@ -50,6 +50,7 @@ def shards(tier, seed):
 		for j in range(reps):
 			out.append(dict(name=f'pool-{mode}-{j}', kind='pool', mode=mode, sub=j, runs=8 if tier == 'quick' else 14))
 	out.append(dict(name='fail', kind='fail', nmax=4 if tier == 'quick' else 6))
+	out.append(dict(name='cli-create', kind='cli', runs=5 if tier == 'quick' else 25))
 	return out
 
 
@@ -396,7 +397,45 @@ def run_fail(sh, ctx):
 						ex.shutdown()
 
 
+def run_cli(sh, ctx):
+	"""`gambit signatures create -c N` on skewed files: stored signatures must sit at their file's position."""
+	from vf import clidrv
+	from gambit.sigs.base import load_signatures
+	rng = random.Random(f'C13-cli-{ctx.seed}')
+	for r in range(sh['runs']):
+		n = rng.choice([2, 3, 7, 16])
+		files, exps = make_files(ctx, rng, n, skew=rng.random() < 0.6, tag=f'cli{r}_')
+		order = list(range(n)); rng.shuffle(order)
+		files, exps = [files[i] for i in order], [exps[i] for i in order]
+		cores = rng.choice([None, 1, 2, 4, 16])
+		out = ctx.workdir / f'cli{r}.gs'
+		args = ['signatures', 'create', '-k', K, '-p', PREFIX.decode(), '-o', out, '--no-progress'] + (['-c', cores] if cores else []) + [f.path for f in files]
+		code, so, se, exc = clidrv.run_inproc(args)
+		w = dict(n=n, cores=cores, cli=True, files=[os.path.basename(str(f.path)) for f in files])
+		ctx.case(('cli', r, n, cores), nontrivial=n >= 2)
+		ctx.count('cli_create_runs')
+		if code != 0:
+			ctx.violation('raises-on-good-files', f'signatures create exited {code}: {se[-200:]} {exc}', w)
+			continue
+		h = load_signatures(str(out))
+		try:
+			check_result(ctx, [h[i] for i in range(len(h))], exps, w, 'signatures create')
+		finally:
+			h.close()
+		# an unreadable file anywhere: non-zero exit and no signature file left that loads as a shorter collection
+		bad = list(files)
+		pos = rng.randrange(n)
+		bad[pos] = bad_file(ctx, 'missing', f'cli{r}')
+		out2 = ctx.workdir / f'cli{r}_bad.gs'
+		code, so, se, exc = clidrv.run_inproc(['signatures', 'create', '-k', K, '-p', PREFIX.decode(), '-o', out2, '--no-progress'] + (['-c', cores] if cores else []) + [f.path for f in bad])
+		ctx.count('cli_create_failure_runs')
+		if code == 0:
+			ctx.violation('returns-despite-bad-file', f'signatures create exited 0 although file {pos} does not exist', w)
+
+
 def run_shard(sh, ctx):
+	if sh['kind'] == 'cli':
+		return run_cli(sh, ctx)
 	{'perm': run_perm, 'alldone': run_perm, 'pool': run_pool, 'fail': run_fail}[sh['kind']](sh, ctx)
 
 
